@@ -7,6 +7,7 @@
 #include "c02.h"
 #include "rkcommon/tasking/AsyncTask.h"
 #include "rkcommon/tasking/async.h"
+#include "rkcommon/tasking/parallel_for.h"
 #include "rkcommon/tasking/schedule.h"
 #include "rkcommon/tasking/tasking_system_init.h"
 
@@ -310,6 +311,11 @@ extern "C" void c02_run()
     SimTag t(SIM_TAG_INFRA);
     initTaskingSystem(p->init_threads);
   }
+  if (p->lazy_teardown) {
+    // first use creates the scheduler; attribute that allocation to the infrastructure like an explicit initialisation
+    SimTag t(SIM_TAG_INFRA);
+    rkcommon::tasking::parallel_for(1, [](int) {});
+  }
   sim_phase(1);
   std::vector<ItemBase *> items;
   if (p->interleave) {
@@ -357,7 +363,7 @@ extern "C" void c02_run()
   sim_phase(3);
   for (auto *it : items)
     delete it;
-  if (p->init_threads > 0) {
+  if (p->init_threads > 0 || p->lazy_teardown) {
     SimTag t(SIM_TAG_INFRA);
     initTaskingSystem(1);
   }
